@@ -30,7 +30,18 @@ def drivers(tier):
             explicit_ids=(1,), max_autos=1, toggles=True, max_postponed=2,
             shapes=((), ('H',), ('P',), ('H', 'P'), ('H', 'H'))),
             dict(max_states=250000, time_budget=240))
+        # a lifecycle callback that itself disables dispatching
+        d['callback-disables'] = (WorldDriver(
+            'callback-disables', own='L', types=('H', 'HZ'), ids=(1,),
+            explicit_ids=(1,), max_autos=1, toggles=True, max_postponed=2,
+            shapes=((), ('H',), ('HZ',), ('H', 'HZ'))),
+            dict(max_states=250000, time_budget=240))
     else:
+        d['callback-disables'] = (WorldDriver(
+            'callback-disables', own='L', types=('H', 'HZ', 'P'), ids=(1, 2),
+            explicit_ids=(1,), max_autos=1, toggles=True, max_postponed=2,
+            shapes=((), ('H',), ('HZ',), ('H', 'HZ'))),
+            dict(max_states=400000, time_budget=1200))
         d['toggle-fixpoint'] = (WorldDriver(
             'toggle-fixpoint', own='L', types=('H', 'P', 'N', 'OA'),
             ids=(1, 2), explicit_ids=(1, 2), max_autos=1, toggles=True,
@@ -200,7 +211,8 @@ def run(tier, rep):
         'is free',
         'the harness keeps every component alive (C10 covers the weak side)',
     ]
-    rep.require_hits(replace_same_type=1, postponed=1, release_postponed=1,
+    rep.require_hits(callback_disables_dispatching=1,
+                     replace_same_type=1, postponed=1, release_postponed=1,
                      clear=1, process_with_pending=1)
     for name, (driver, kw) in drivers(tier).items():
         kernel.explore(driver, rep, part=name, params=driver.params(), **kw)
